@@ -168,6 +168,29 @@ def m_vec_pop(c):
     return some(v)
 
 
+@model('VecDeque::pop_front')
+def m_vecdeque_pop_front(c):
+    s = as_seq(c.st, c.args[0])
+    e = s.force(c.st)
+    if not e:
+        return none()
+    v = s.load(0, None, c.st)
+    del e[0]
+    return some(v)
+
+
+@model('VecDeque::pop_back')
+def m_vecdeque_pop_back(c):
+    return m_vec_pop(c)
+
+
+@model('VecDeque::push_front')
+def m_vecdeque_push_front(c):
+    s = as_seq(c.st, c.args[0])
+    s.force(c.st).insert(0, c.args[1])
+    return UNIT
+
+
 @model('Vec::truncate')
 def m_vec_truncate(c):
     s = as_seq(c.st, c.args[0])
